@@ -225,6 +225,56 @@ func (e *env) applyAll(ms []mut) {
 	}
 }
 
+// applyBacklog stalls the index consumer inside Index.Key (the first index task blocks on a gate) while one
+// writer goroutine issues the mutations in order.  The task queue holds 256 tasks: the writer runs until it has
+// issued everything or stops making progress (blocked on the full queue), then the gate is released.  Commit
+// order = the order of ms (one writer), so per-id order of everything downstream must be that order.
+func (e *env) applyBacklog(ms []mut, dist map[string]int) bool {
+	g := &gateT{entered: make(chan struct{}), release: make(chan struct{})}
+	gate.Store(g)
+	var issued int64
+	done := make(chan struct{})
+	go func() {
+		for _, m := range ms {
+			e.apply(m)
+			atomic.AddInt64(&issued, 1)
+		}
+		close(done)
+	}()
+	select {
+	case <-g.entered:
+		dist["backlog_consumer_stalled"]++
+	case <-done:
+	case <-time.After(5 * time.Second):
+	}
+	last, lastT := int64(-1), time.Now()
+	for {
+		n := atomic.LoadInt64(&issued)
+		if n == int64(len(ms)) {
+			break
+		}
+		if n != last {
+			last, lastT = n, time.Now()
+		} else if time.Since(lastT) > 200*time.Millisecond {
+			break
+		}
+		time.Sleep(5 * time.Millisecond)
+	}
+	n := int(atomic.LoadInt64(&issued))
+	dist["backlog_mutations_issued_while_stalled"] += n
+	if n > 256 {
+		dist["backlog_runs_past_queue_capacity"]++
+	}
+	gate.Store((*gateT)(nil))
+	close(g.release)
+	select {
+	case <-done:
+		return true
+	case <-time.After(90 * time.Second):
+		return false
+	}
+}
+
 // query runs one index query; kind 0 ok, 1 error, 2 panic.
 func (e *env) query(q qd) (ids []string, kind int) {
 	defer func() {
@@ -657,7 +707,10 @@ type c14desc struct {
 	Queries  []qd    `json:"queries"`
 	Handlers bool    `json:"handlers"`
 	Delayed  bool    `json:"delayed_gateway"` // query requests are sent only after the segment's Flush
-	Subs     []subT  `json:"subs"`
+	// Backlog: the index consumer is stalled inside Index.Key (first index task) while ONE writer goroutine
+	// issues all mutations of the segment (more than the task queue holds), then released.
+	Backlog bool   `json:"backlog"`
+	Subs    []subT `json:"subs"`
 }
 
 type cbRec struct {
@@ -1085,7 +1138,13 @@ func runC14(d c14desc, dist map[string]int, impl *[]ImplViolation) Case {
 		}
 		cur := seg
 		mu.Unlock()
-		e.applyAll(ms)
+		if d.Backlog {
+			if !e.applyBacklog(ms, dist) {
+				*impl = append(*impl, ImplViolation{What: "backlog scenario: the writer did not finish after the stalled index task was released (writer or index queue hung)", Desc: d, Tags: []string{"backlog"}})
+			}
+		} else {
+			e.applyAll(ms)
+		}
 		e.qs.Flush()
 		mu.Lock()
 		launch := pending
@@ -1217,6 +1276,16 @@ func runC14(d c14desc, dist map[string]int, impl *[]ImplViolation) Case {
 	return c
 }
 
+// a backlog case: one segment of n mutations over the 4 ids (many key-changing writes to the same id on both
+// sides of the queue capacity), consumer stalled, no handler layer
+func genBacklog(r *Rng, n int) c14desc {
+	ms := genHistory(r, n, false)
+	qs := genQueries(r, ms, false, 6)
+	qs[0] = qd{I: 1, P: "", F: 0, O: 0, L: -1}
+	qs[1] = qd{I: 0, P: "", F: 0, O: 0, L: -1}
+	return c14desc{Segs: [][]mut{ms}, Queries: qs, Backlog: true}
+}
+
 func genC14(r *Rng, i int, thorough bool) c14desc {
 	hl := 1 + r.Intn(30)
 	if i < 10 {
@@ -1303,8 +1372,21 @@ func mainC14(o Opts) {
 		if o.N > 0 {
 			n = o.N
 		}
-		for i := 0; i < n; i++ {
-			d := genC14(r, i, o.Tier == "thorough")
+		backlog := []int{330, 560}
+		if o.Tier == "thorough" {
+			backlog = []int{300, 420, 560, 800, 1200, 2000}
+		}
+		if o.N > 0 && o.N < 20 {
+			backlog = nil
+		}
+		for i := 0; i < n+len(backlog); i++ {
+			var d c14desc
+			if i < n {
+				d = genC14(r, i, o.Tier == "thorough")
+			} else {
+				d = genBacklog(r, backlog[i-n])
+				dist["backlog_histories"]++
+			}
 			c := runC14(d, dist, &impl)
 			dist["histories"]++
 			if d.Handlers {
@@ -1325,7 +1407,7 @@ func mainC14(o Opts) {
 	}
 	dist["responses_with_null_collection"] = int(nullCollections)
 	Emit(o, "C14", "From GoRes Require Import Run.Run_C14.", "c14case",
-		"random mutation histories (as C13) cut into segments (single mutations / runs of 1-5 / one run), QueryStore.Flush after each segment; two recording OnQueryChange callbacks that run 8 (thorough 16) index queries and Events() inside the callback; Store.OnChange reports; in 4 of 5 histories a res.Service with four store.QueryHandler resources (ordinary / query resource x without / with path parameters and AffectedResources; IDToRIDCollectionTransformer on the ordinary path-parameter collection, IDToRIDModelTransformer on the query model with a path parameter) on a recording connection playing the gateway (query requests for every subscribed client query, sent at once or - every second history - only after all mutations of the segment were indexed; fresh gets after each segment); non-trivial = some Events() call reported affected and some unaffected; distinct by (segments, queries, subscriptions)",
+		"random mutation histories (as C13) cut into segments (single mutations / runs of 1-5 / one run), QueryStore.Flush after each segment; two recording OnQueryChange callbacks that run 8 (thorough 16) index queries and Events() inside the callback; Store.OnChange reports; in 4 of 5 histories a res.Service with four store.QueryHandler resources (ordinary / query resource x without / with path parameters and AffectedResources; IDToRIDCollectionTransformer on the ordinary path-parameter collection, IDToRIDModelTransformer on the query model with a path parameter) on a recording connection playing the gateway (query requests for every subscribed client query, sent at once or - every second history - only after all mutations of the segment were indexed; fresh gets after each segment); plus backlog histories: one writer goroutine issues 300-600 (thorough up to 2000) mutations over the 4 ids while the index consumer is stalled inside Index.Key, so the 256-slot task queue fills up, then the consumer is released; non-trivial = some Events() call reported affected and some unaffected; distinct by (segments, queries, subscriptions)",
 		cases, dist, nil, impl, 25)
 }
 
